@@ -1190,6 +1190,26 @@ def m_future_poll(ip, c, a):
         r = ip.resolve('<%s as Future>::poll' % tgt.ty)
         if r is not None: return ip.call_fn(r, [p, a[1]])
     raise Unsupported("poll of %r" % (tgt,))
+def _io_target(v):
+    r = v
+    while isinstance(r, Ref) and isinstance(r.cell.v, Ref): r = r.cell.v
+    return r
+def m_write_all(ip, c, a):
+    w = _io_target(a[0]); t = unref(w)
+    f = ip.resolve('<%s as Write>::write' % t.ty)
+    if f is None: raise Unsupported("write_all on " + t.ty)
+    r = ip.call_fn(f, [w, a[1]])
+    return res_ok(UNIT) if r.variant == 'Ok' else r
+def m_read_exact(ip, c, a):
+    rd = _io_target(a[0]); t = unref(rd)
+    f = ip.resolve('<%s as Read>::read' % t.ty)
+    if f is None: raise Unsupported("read_exact on " + t.ty)
+    buf = a[1]; want = len(items_of(buf))
+    r = ip.call_fn(f, [rd, buf])
+    if r.variant != 'Ok': return r
+    n = r.fields[0].v
+    if isinstance(n, int) and n < want: return res_err(Agg('IoError', None, []))
+    return res_ok(UNIT)
 def m_into_future(ip, c, a): return a[0]
 def m_unsize_ident(ip, c, a): return a[0]
 def install13(ip):
@@ -1198,7 +1218,7 @@ def install13(ip):
         P(r'^Box::pin$|^Box::<.*>::pin$', m_box_pin), P(r'^Pin::<.*>::new_unchecked$|^Pin::new_unchecked$|^Pin::<.*>::new$|^Pin::new$', m_pin_new_unchecked),
         P(r'^Pin::<.*>::as_mut$|^Pin::as_mut$', m_pin_as_mut), P(r'^Pin::<.*>::get_mut$|^Pin::get_mut$|^Pin::<.*>::get_unchecked_mut$|^Pin::get_unchecked_mut$', m_pin_get_mut),
         P(r'^Waker::noop$', m_waker_noop), P(r'^Context::<.*>::from_waker$|^Context::from_waker$', m_context_from_waker),
-        P(r' as Future>::poll$', m_future_poll), P(r' as IntoFuture>::into_future$', m_into_future),
+        P(r' as Future>::poll$', m_future_poll), P(r'as (std::io::)?Write>::write_all$', m_write_all), P(r'as (std::io::)?Read>::read_exact$', m_read_exact), P(r' as IntoFuture>::into_future$', m_into_future),
     ] + ip.pattern_models
     ip.pattern_models = ip.pattern_models + [(re.compile(r' as Clone>::clone$'), m_clone_generic)]
 
